@@ -199,7 +199,8 @@ def main():
         # entries = call sequence of the source
         if seq is not None:
             entries = [l.split()[2].split('+')[0] for l in real if l.split()[2].endswith('+0')]
-            if entries != seq:
+            cut = len(real) >= 150000          # the run was cut by --max-cycles: only a prefix of the calls was traced
+            if (entries != seq) if not cut else (entries != seq[:len(entries)]):
                 nbad += 1
                 ck.violation('procedure entries in the trace %s differ from the call sequence of the source %s' % (entries[:12], seq[:12]),
                              {'source': src.decode(), 'calls': seq, 'names': names}, tags={'kind': 'entries'})
